@@ -20,7 +20,7 @@ import (
 
 // C06 — Compile is total: no panic, crash or hang; exactly one of (expr, error).
 
-const ruleC06 = "rapid: valid expression text from all fragments (incl. unconstrained ones) or token soup, then 0-3 mutations, byte-level (delete / duplicate a range, flip a byte, insert a token from a dictionary) or token-level (delete / duplicate / swap lexical words of XPath tokens, quotes, brackets, NUL, invalid UTF-8, multi-byte names) x namespace configuration (Compile; CompileWithNS with nil, empty, binding and non-binding maps). mixed: alternations of two constructs (predicate/function, predicate/arithmetic, parenthesis/union, sequence/predicate/function ...) at depths 2..198, whose compile cost must stay polynomial; two-phase: N completed sibling constructs followed by a construct nested N+250 deep (N up to 10^5 quick / 1.5*10^6 thorough) for 7 prefix x 5 nesting constructs; deep: every recursive construct of the grammar ('(', 'a[', 'f(', 'a/(', 'a/(b,', '-', 'a/', 'a//', '[1]', '1+', 'a|', 'or', '=', alternations of two) nested to depth 10^2..10^5 under an 8 MB maximum stack (quick) or ..3*10^6 under the default 1 GB stack (thorough), closed and unclosed, each journalled before it runs so that a dying process is attributed. pumped segments: prefix + segment^n + suffix (n = 40; thorough 24, 40, 64, 150) for every segment of <= 3 chunks from 37 lexical chunks and small balanced constructs ('/', '(b,c)', '[b|c]', ' or ', 'not(' ...) in 5 frames, decided by an allocation budget (a Compile that passes 6*10^7 allocations is abandoned and reported) so that a cost that multiplies per repeated sibling is seen without waiting for the clock; short byte strings: every string of <= 3 bytes over 26 hostile bytes (UTF-8 lead/continuation bytes, BOM bytes, NUL, 0xFF, quotes, brackets) x 2 namespace configurations. thorough also: native go fuzzing of the same oracle. Oracle: Compile/CompileWithNS return exactly one of (non-nil expr, non-nil error); no panic escapes; the process survives; MustCompile returns a usable non-nil expression; a returned expression answers String() without panicking; every call returns within a generous wall-clock margin (re-tried once in isolation). Non-trivial: the input was mutated, or is soup, or is a depth case; distinct by input bytes + namespace configuration."
+const ruleC06 = "rapid: valid expression text from all fragments (incl. unconstrained ones) or token soup, then 0-3 mutations, byte-level (delete / duplicate a range, flip a byte, insert a token from a dictionary) or token-level (delete / duplicate / swap lexical words of XPath tokens, quotes, brackets, NUL, invalid UTF-8, multi-byte names) x namespace configuration (Compile; CompileWithNS with nil, empty, binding and non-binding maps). mixed: alternations of two constructs (predicate/function, predicate/arithmetic, parenthesis/union, sequence/predicate/function ...) at depths 2..198, whose compile cost must stay polynomial; two-phase: N completed sibling constructs followed by a construct nested N+250 deep (N up to 10^5 quick / 1.5*10^6 thorough) for 7 prefix x 5 nesting constructs; deep: every recursive construct of the grammar ('(', 'a[', 'f(', 'a/(', 'a/(b,', '-', 'a/', 'a//', '[1]', '1+', 'a|', 'or', '=', alternations of two) nested to depth 10^2..10^5 (10^6 for the constructs of at most four bytes per level) under an 8 MB maximum stack (quick) or ..3*10^6 (3*10^7) under the default 1 GB stack (thorough), closed and unclosed, each journalled before it runs so that a dying process is attributed. pumped segments: prefix + segment^n + suffix (n = 40; thorough 24, 40, 64, 150) for every segment of <= 3 chunks from 37 lexical chunks and small balanced constructs ('/', '(b,c)', '[b|c]', ' or ', 'not(' ...) in 5 frames, decided by an allocation budget (a Compile that passes 6*10^7 allocations is abandoned and reported) so that a cost that multiplies per repeated sibling is seen without waiting for the clock; short byte strings: every string of <= 3 bytes over 26 hostile bytes (UTF-8 lead/continuation bytes, BOM bytes, NUL, 0xFF, quotes, brackets) x 2 namespace configurations. thorough also: native go fuzzing of the same oracle. Oracle: Compile/CompileWithNS return exactly one of (non-nil expr, non-nil error); no panic escapes; the process survives; MustCompile returns a usable non-nil expression; a returned expression answers String() without panicking; every call returns within a generous wall-clock margin (re-tried once in isolation). Non-trivial: the input was mutated, or is soup, or is a depth case; distinct by input bytes + namespace configuration."
 
 var (
 	uC06Rapid = harness.NewUnit("C06", "rapid-mutated-inputs", ruleC06)
@@ -532,8 +532,15 @@ func TestC06Deep(t *testing.T) {
 	shard, shards := harness.Shard()
 	var total int64
 	idx := 0
-	for _, depth := range depths {
+	// one more order of magnitude for the constructs that cost at most four bytes per level:
+	// a recursion with small frames needs that many levels to exhaust even the 8 MB stack
+	tiny := map[string]bool{"paren": true, "unary-minus": true, "slash": true, "double-slash": true, "predicates-in-a-row": true, "plus": true, "union": true, "equals": true, "abbrev-parent": true, "predicate": true}
+	extra := depths[len(depths)-1] * 10
+	for _, depth := range append(append([]int{}, depths...), extra) {
 		for _, c := range deepConstructs {
+			if depth == extra && !tiny[c.name] {
+				continue
+			}
 			for _, closed := range []bool{true, false} {
 				idx++
 				if idx%shards != shard {
